@@ -345,7 +345,12 @@ func cmdCheck(id, tier string) int {
 			}
 		}
 		// cases for native replay
+		perLabel := map[string]int{}
 		for _, v := range hr.Violations {
+			perLabel[v.Label]++
+			if perLabel[v.Label] > 3 {
+				continue
+			}
 			allCases = append(allCases, replayCase{Harness: hc.Func, Inputs: v.Model, Params: tc.Params, Kind: "violation", Label: v.Label, Pkg: hc.Pkg, Detail: v.Detail, Sched: v.Sched})
 		}
 		for _, k := range hr.KnownSeen {
